@@ -328,3 +328,40 @@ CHECKS["C14"] = {
         rapid_job("triples", "./verifh/c14", "TestTripleSweep", 300, 1500, shards={"quick": 4, "thorough": 16}, timeout={"quick": 400, "thorough": 2400}),
     ],
 }
+
+
+def _c11_postprocess(res, text, known):
+    """Reduce race reports to the pair of innermost sc-golang frames; listed pairs are known findings."""
+    import re
+    reports = text.split("WARNING: DATA RACE")[1:]
+    if not reports:
+        return "violation", text
+    unknown = []
+    for rep in reports:
+        rep = rep.split("==================")[0]
+        blocks = re.split(r"\n\n", rep)
+        frames = []
+        for b in blocks[:2]:
+            m = re.findall(r"^\s+(github\.com/smart-core-os/sc-golang/(?!verifh)\S+?)\(\)$", b, re.M)
+            frames.append(m[0].replace("github.com/smart-core-os/sc-golang/", "") if m else "?")
+        sig = "C11:" + "|".join(sorted(frames))
+        if sig not in known:
+            unknown.append(sig)
+    if not unknown:
+        return "ok", ""
+    return "violation", "unlisted data race(s): %s\n%s" % (", ".join(sorted(set(unknown))), text)
+
+
+CHECKS["C11"] = {
+    "rule": ("rapid-generated concurrent workloads run under the Go race detector: 4-16 goroutines x 5-30 operations drawn per goroutine over Value, Collection (generated ids, CAS, interceptors and callbacks "
+             "that read their messages, include predicates), the event bus (+DropExcess), an OnOff router with factory + wrapped clients (unary and streaming, short deadlines), a wrapped TestApi "
+             "client (all four call shapes incl. mid-stream cancel), group.Execute with every strategy, and the electric/parent/metadata/vending/hail/publication models and the electric server with "
+             "open Pull streams; consumers read every field of everything they receive. Every race report is reduced to its pair of innermost sc-golang frames; any pair not listed in "
+             "known_findings.txt is a violation. non-trivial = every workload (>=4 goroutines sharing one object with writers); distinct by (target, per-goroutine operation plan)"),
+    "assumptions": ["only executed interleavings are judged: no report is not proof of absence", "harness callbacks only read the messages they are given"],
+    "jobs": [
+        rapid_job("core", "./verifh/c11", "TestRaceValue|TestRaceCollection|TestRaceBus", 500, 2500, race=True, shards_t=8, postprocess=_c11_postprocess, timeout={"quick": 500, "thorough": 2400}),
+        rapid_job("stack", "./verifh/c11", "TestRaceRouterAndWrap|TestRaceWrappedClient|TestRaceGroup", 300, 1500, race=True, shards_t=8, postprocess=_c11_postprocess, timeout={"quick": 500, "thorough": 2400}),
+        rapid_job("models", "./verifh/c11", "TestRaceModels", 400, 2000, race=True, shards_t=8, postprocess=_c11_postprocess, timeout={"quick": 500, "thorough": 2400}),
+    ],
+}
